@@ -391,6 +391,9 @@ def dispatch(it, st, stack, fr, dest, callee, args, ret_bb):
 
 
 def _dispatch(it, st, stack, fr, dest, c, args, ret_bb):
+    if c == 'verif_open_time_sql':
+        con = deref(args[0])
+        return execute(it, st, con.db, deref(args[1]).s, [])
     if re.search(r'Connection::execute(::<.*>)?$', c):
         con = deref(args[0])
         sql = deref(args[1])
